@@ -300,64 +300,92 @@ def submit_transfer(w, idx):
     op = t['op']
     subs = make_subs(w, t, idx)
     extra = dict(t.get('extra') or {})
+    if w.scn.get('shared_extra') is not None:
+        # the caller keeps ONE dictionary of extra arguments and hands it to every transfer
+        if not hasattr(w, 'shared_extra'):
+            w.shared_extra = dict(w.scn['shared_extra'])
+        extra = w.shared_extra
     info = {'idx': idx, 'op': op, 't': t}
     w.transfers.append(info)
     faults = (w.scn.get('faults') or {}).get('sites', ())
-    if op == 'upload':
-        data = payload(t.get('start', 0) + t['size'], seed, salt=idx)
-        info['expected'] = data[t.get('start', 0):]
-        info['key'] = t.get('key', f'up{idx}')
-        src = t.get('src', 'path')
-        if src == 'path':
-            # `path_of`: the same file an earlier transfer uploaded, rewritten with this transfer's content
-            p = os.path.join(w.scratch.path, f"src{t.get('path_of', idx)}")
-            with open(p, 'wb') as f:
-                f.write(info['expected'])
-            fileobj = p
-        else:
-            fileobj = SourceStream(sched, data, seekable=(src in ('seekable', 'duck')), short=t.get('short'),
-                                   start=t.get('start', 0), name=f'src{idx}',
-                                   fault=('src:read' in faults and _is_victim(w, idx)))
-            info['stream'] = fileobj
-            fileobj.track = bool(w.scn.get('track_buffers'))
-            if src == 'duck':
-                fileobj = DuckStream(fileobj)
-        fut = m.upload(fileobj, BUCKET, info['key'], extra_args=extra, subscribers=subs)
-    elif op == 'download':
-        key = t['key']
-        info['key'] = key
-        info['expected'] = w.s3.objects[(BUCKET, key)]
-        dst = t.get('dst', 'path')
-        if dst in ('path', 'special'):
-            name = f'dst{idx}'
-            if t.get('name_len'):          # destination base names up to the file system's limit
-                name = name + 'x' * (t['name_len'] - len(name))
-            info['name'] = name
-            p = os.path.join(w.scratch.path, name)
-            info['path'] = p
-            if t.get('preexisting') is not None:
+    try:
+        if op == 'upload':
+            data = payload(t.get('start', 0) + t['size'], seed, salt=idx)
+            info['expected'] = data[t.get('start', 0):]
+            info['key'] = t.get('key', f'up{idx}')
+            src = t.get('src', 'path')
+            if src == 'path':
+                # `path_of`: the same file an earlier transfer uploaded, rewritten with this transfer's content
+                p = os.path.join(w.scratch.path, f"src{t.get('path_of', idx)}")
                 with open(p, 'wb') as f:
-                    f.write(t['preexisting'].encode() if isinstance(t['preexisting'], str) else t['preexisting'])
-            fileobj = p
+                    f.write(info['expected'])
+                fileobj = p
+            else:
+                fileobj = SourceStream(sched, data, seekable=(src in ('seekable', 'duck')), short=t.get('short'),
+                                       start=t.get('start', 0), name=f'src{idx}',
+                                       fault=('src:read' in faults and _is_victim(w, idx)))
+                info['stream'] = fileobj
+                fileobj.track = bool(w.scn.get('track_buffers'))
+                if src == 'duck':
+                    fileobj = DuckStream(fileobj)
+            fut = m.upload(fileobj, BUCKET, info['key'], extra_args=extra, subscribers=subs)
+        elif op == 'download':
+            key = t['key']
+            info['key'] = key
+            info['expected'] = w.s3.objects[(BUCKET, key)]
+            dst = t.get('dst', 'path')
+            if dst in ('path', 'special'):
+                name = f'dst{idx}'
+                if t.get('name_len'):          # destination base names up to the file system's limit
+                    name = name + 'x' * (t['name_len'] - len(name))
+                info['name'] = name
+                p = os.path.join(w.scratch.path, name)
+                info['path'] = p
+                if t.get('preexisting') is not None:
+                    with open(p, 'wb') as f:
+                        f.write(t['preexisting'].encode() if isinstance(t['preexisting'], str) else t['preexisting'])
+                fileobj = p
+            else:
+                fileobj = SinkStream(sched, seekable=(dst == 'seekable'), name=f'dst{idx}',
+                                     fault=('sink:write' in faults and _is_victim(w, idx)))
+                info['stream'] = fileobj
+            fut = m.download(BUCKET, key, fileobj, extra_args=extra, subscribers=subs)
+        elif op == 'copy':
+            info['key'] = t.get('key', f'cp{idx}')
+            info['expected'] = w.s3.objects[(BUCKET, t['src_key'])]
+            fut = m.copy({'Bucket': BUCKET, 'Key': t['src_key']}, BUCKET, info['key'],
+                         extra_args=extra, subscribers=subs)
+        elif op == 'delete':
+            info['key'] = t['key']
+            fut = m.delete(BUCKET, t['key'], extra_args=extra, subscribers=subs)
         else:
-            fileobj = SinkStream(sched, seekable=(dst == 'seekable'), name=f'dst{idx}',
-                                 fault=('sink:write' in faults and _is_victim(w, idx)))
-            info['stream'] = fileobj
-        fut = m.download(BUCKET, key, fileobj, extra_args=extra, subscribers=subs)
-    elif op == 'copy':
-        info['key'] = t.get('key', f'cp{idx}')
-        info['expected'] = w.s3.objects[(BUCKET, t['src_key'])]
-        fut = m.copy({'Bucket': BUCKET, 'Key': t['src_key']}, BUCKET, info['key'],
-                     extra_args=extra, subscribers=subs)
-    elif op == 'delete':
-        info['key'] = t['key']
-        fut = m.delete(BUCKET, t['key'], extra_args=extra, subscribers=subs)
-    else:
-        raise ValueError(op)
+            raise ValueError(op)
+    except (AbortExecution, detsched.SeqDeadlock):
+        raise
+    except Exception as e:  # noqa - the entry point itself refused the transfer
+        sched.emit('user.submit_raised', idx=idx, exc=repr(e))
+        fut = _Refused(e)
     info['future'] = fut
     w.futures.append(fut)
     sched.emit('user.submitted', idx=idx, op=op)
     return fut
+
+
+class _Refused:
+    """stands in for the future of a transfer the entry point refused with an exception"""
+
+    def __init__(self, exc):
+        self._exc = exc
+        self.meta = None
+
+    def done(self):
+        return True
+
+    def result(self):
+        raise self._exc
+
+    def cancel(self, *a, **k):
+        pass
 
 
 def collect(w, idx):
